@@ -57,7 +57,7 @@ namespace {
   } else {
     auto tags = tokens;
     tags.erase(begin(tags));
-    if (!tags.rbegin()->empty() && std::isdigit(tags.rbegin()->at(0))) {
+    if (IsInteger(*tags.rbegin())) { // Note: legacy index is a number, do not drop grammemes like 3per
       tags.erase(prev(end(tags)));
     }
     return Morphology{ tags };
